@@ -48,6 +48,9 @@ struct SynthPlan {
 	// from 0) returns forceValue instead of the tape's choice (the tape is consumed as usual).
 	int forceRead = -1;
 	uint64_t forceValue = 0;
+	// added to every float the supplier hands out: the same tape then gives a block of the same structure
+	// (counts, flags, enum values) with different leaf values
+	float floatSalt = 0.0f;
 };
 
 // Force request for the FIRST subject of the next synthesised file(s) on this thread
@@ -147,7 +150,7 @@ public:
 		return v % 301;
 	}
 
-	float niceFloat() { return tape.nice(); }
+	float niceFloat() { return tape.nice() + plan.floatSalt; }
 
 	void doRead(char* dst, std::streamsize count, nifly::verif::Hint hint, size_t es) {
 		using nifly::verif::Hint;
@@ -403,6 +406,42 @@ inline SynthResult synthBlock(const std::string& type, const VersionCfg& v, Tape
 	res.intReads = sup.intReads;
 	res.forced = sup.forcedApplied;
 	return res;
+}
+
+// Overwrite every serialised field of an EXISTING block by reading a generated payload into it
+// (the block's own Get through the same hooks): an in-place edit of all of its state, including
+// nested heap objects it owns. References and string indices are left empty.
+inline bool resynthInPlace(nifly::NiObject& obj, nifly::NiHeader& hdr, Tape& tape, int forceRead = -1, uint64_t forceValue = 0, float floatSalt = 0.0f) {
+	std::istringstream empty;
+	nifly::NiIStream stream(&empty, &hdr);
+	SynthPlan plan;
+	plan.maxBytes = 96 * 1024;
+	plan.forceRead = forceRead;
+	plan.forceValue = forceValue;
+	plan.floatSalt = floatSalt;
+	Supplier sup(tape, plan, obj.GetBlockName());
+	nifly::verif::Hooks hooks;
+	hooks.read = &Supplier::readCb;
+	hooks.getline = &Supplier::getlineCb;
+	hooks.getstring = &Supplier::getstringCb;
+	hooks.ctx = &sup;
+	auto prev = nifly::verif::hooks;
+	nifly::verif::hooks = &hooks;
+	bool ok = true;
+	try {
+		obj.Get(stream);
+	}
+	catch (const SynthAbort&) {
+		ok = false;
+	}
+	catch (const std::bad_alloc&) {
+		ok = false;
+	}
+	catch (const std::length_error&) {
+		ok = false;
+	}
+	nifly::verif::hooks = prev;
+	return ok;
 }
 
 inline const std::vector<std::string>& registeredTypes() {
